@@ -1,5 +1,6 @@
 // C03 - returned L and U are structurally well-formed (complete LU and ILU).
 #include "expert.hpp"
+#include <map>
 
 namespace vf {
 
@@ -77,6 +78,26 @@ template <class T> static void run_T(Choice &c, Ctx &cx)
                 Dense<W> AAeq = factored_matrix(e);
                 LUDecoded<T> dec;
                 ok = check_lu<T>(cx, AAeq, e.perm_r.data(), e.perm_c.data(), &e.L, &e.U, o.u, true, false, dec); fs = dec.fs; degenerate = dec.degenerate;
+                // the structure must also be consistent after the factors were re-used for a matrix with other values
+                // (SamePattern_SameRowPerm): remembered pivots may be abandoned, fill and supernodes change
+                if (ok && !degenerate && c.chance(128)) {
+                    GMat G2 = G; ValGen g; g.kind = c.chance(128) ? 1 : 0; g.cmode = 0; g.expK = 0; g.explicit_zero = false;
+                    for (auto &col : G2.col) for (auto &en : col) en.second = g.value(c, cplx);
+                    if (!(cx.is_known("F-SS") && maybe_exactly_singular(G2))) {
+                        Comp<T> fresh = to_comp<T>(G2, o.nr, nullptr);
+                        std::map<std::pair<int_t, int_t>, T> mv; for (int kk = 0; kk < n; ++kk) for (int_t p = fresh.ptr[kk]; p < fresh.ptr[kk + 1]; ++p) mv[{(int_t)kk, fresh.idx[p]}] = fresh.val[p];
+                        for (int kk = 0; kk < n; ++kk) for (int_t p = e.S.ptr[kk]; p < e.S.ptr[kk + 1]; ++p) e.S.val[p] = mv[{(int_t)kk, e.S.idx[p]}];
+                        e.so.Fact = SamePattern_SameRowPerm;
+                        if (e.call()) { cx.fail("abort", fmt("gssvx(SamePattern_SameRowPerm): library called ABORT: %s", vf_abort_msg())); vf_purge(); return; }
+                        if (e.info == 0 || e.info == n + 1) {
+                            Dense<W> AA2 = factored_matrix(e); LUDecoded<T> dec2;
+                            ok = check_lu<T>(cx, AA2, e.perm_r.data(), e.perm_c.data(), &e.L, &e.U, o.u, false, false, dec2);
+                            if (!ok) cx.msg = "after re-use with SamePattern_SameRowPerm: " + cx.msg;
+                            fs = dec2.fs; degenerate = dec2.degenerate; cx.label("refactored-same-row-perm");
+                        } else if (e.info > n + 1 || e.info < 0) { e.lu_live = false; }
+                        info = e.info;
+                    }
+                }
             }
         }
         e.teardown();
